@@ -150,16 +150,20 @@ def _mutants(trace):
             m[hit]["reopen"] = r[fin]["reopen"]
             out.append(("err_but_applied", m))
             break
-    # an add fails and the operations queued before it are gone from the final commit
+    # a commit fails (single fault, so the queue is known exactly) and the queued operations are lost:
+    # the final fault-free commit shows the contents seen at the failed call
     for r in runs:
+        if r[0]["nfaults"] != 1:
+            continue
         rr = rets(r)
-        hit = next((k for k in rr if not r[k]["ok"] and r[k - 1].get("op") == "add" and r[k]["hits"]), None)
+        hit = next((k for k in rr if not r[k]["ok"] and r[k - 1].get("op") == "commit" and r[k]["hits"]
+                    and (r[k]["hits"][0]["cls"].startswith("seg.") or r[k]["hits"][0]["name"] == "atomic_write")), None)
         fin = rr[-1]
         if hit is not None and r[fin]["ok"] and r[fin - 1].get("final") and r[fin]["reader"] != r[hit]["reader"]:
             m = copy.deepcopy(r)
             m[fin]["reader"] = r[hit]["reader"]
             m[fin]["reopen"] = r[hit]["reopen"]
-            out.append(("queue_lost_after_failed_add", m))
+            out.append(("queue_lost_after_failed_commit", m))
             break
     return out
 
@@ -184,6 +188,20 @@ def _selftest(v, trace):
 
 # ------------------------------------------------------------------------------------------------
 
+def _workdir():
+    """Scratch root for the driver. There is no crash in this family (only the volatile view of the
+    storage is read back), so the FsStorage scenarios run on tmpfs when available: thousands of
+    from-scratch re-runs with real fsyncs are I/O bound (measured 96 s vs 14 s, identical trace)."""
+    shm = "/dev/shm"
+    if os.path.isdir(shm) and os.access(shm, os.W_OK):
+        d = os.path.join(shm, f"verif-faults-{os.getuid()}")
+        os.makedirs(d, exist_ok=True)
+        return d
+    d = os.path.join(lib.OUT, "work")
+    os.makedirs(d, exist_ok=True)
+    return d
+
+
 def run_c03(v):
     quick = v.tier == "quick"
     v.level = "fault_enumeration"
@@ -199,7 +217,7 @@ def run_c03(v):
             "--pairs", 1 if quick else 5,
             "--pairs-fs", 0 if quick else 1,
             "--pair-cap", 4000 if quick else 40000]
-    s = lib.svh(binary, args, timeout=6000, env={"VERIF_WORK": os.path.join(lib.OUT, "work")})
+    s = lib.svh(binary, args, timeout=6000, env={"VERIF_WORK": _workdir()})
     msgs, dt, _ = lib.tlc_trace("Trace_Fault.tla", trace, timeout=6000, xmx="8g")
     tool = [m for m in msgs if m.get("kind") == "TOOL"]
     if tool:
